@@ -60,8 +60,8 @@ ANCHORS = [
 
 def plan(tier):
     if tier == "quick":
-        return {"shards": 8, "hosts": 3, "chains": 30, "cycles": 20, "timeout": 300}
-    return {"shards": 16, "hosts": 40, "chains": 600, "cycles": 320, "timeout": 3000}
+        return {"shards": 8, "hosts": 3, "chains": 30, "cycles": 20, "timeout": 900}
+    return {"shards": 16, "hosts": 40, "chains": 600, "cycles": 320, "timeout": 7200}
 
 
 def place(inner, position, rng, title="Host"):
